@@ -46,6 +46,13 @@ def bytesOfString (s : GoString) : Bytes := s
 /-- `*p` for a pointer known to be non-nil (the translator checks the guard) -/
 def deref {α} [Inhabited α] (p : Option α) : α := p.getD default
 
+/-! ### uint64 (values are `Nat` < 2^64; `+ - *` are emitted with an explicit `% 2^64`) -/
+
+/-- `x << s` on uint64 (`s ≥ 64` gives 0, as in Go) -/
+def shl64 (x s : Nat) : Nat := (x * 2^s) % 2^64
+/-- `uint(x)` / `uint64(x)` of an `int` (two's complement wrap-around for negative x) -/
+def uintOfInt (x : Int) : Nat := (x % 2^64).toNat
+
 /-! ### map[string]V -/
 
 structure GoMap (V : Type) where
